@@ -789,7 +789,7 @@ func ufScenario(s *verifsim.Sim) {
 				dcid[i] = byte(0x30 + i*7 + fi*3 + T.Choose(3))
 			}
 			scid := []byte{1, 2, 3, byte(fi)}
-			nPk := T.Range(1, 3)
+			nPk := 1 + T.Pick(6, 6, 6, 2, 2, 2) // 1-6 packets: a hello spread over five or more datagrams keeps the session in need-more for four rounds and longer
 			// cut the CRYPTO stream into nPk..nPk+3 pieces
 			cuts := []int{0, len(h.data)}
 			wantCuts := nPk + 1 + T.Choose(3)
@@ -896,6 +896,19 @@ func ufScenario(s *verifsim.Sim) {
 			i := T.Choose(len(f.order))
 			f.order = append(f.order[:i+1], f.order[i:]...)
 			s.Fault("client-datagram-duplicated")
+		}
+		if f.nFlight >= 2 && T.Chance(1, 6) {
+			// the client's loss-recovery timer: the first packet of the flight is sent again (2-3 more times)
+			// before the rest gets through
+			for i, k := range f.order {
+				if k == 0 {
+					n := T.Range(2, 3)
+					rep := make([]int, n)
+					f.order = append(f.order[:i+1], append(rep, f.order[i+1:]...)...)
+					s.Fault("client-initial-retransmitted")
+					break
+				}
+			}
 		}
 		if f.kind == "quic-sni" && f.sniffPort {
 			seen := map[int]bool{}
@@ -1542,6 +1555,6 @@ func TestSimUdpFlow(t *testing.T) {
 		Prop: prop, Name: "udpflow", MaxSteps: 30000, Scenario: ufScenario, Reset: ufReset,
 		Real:  []string{"control.ControlPlane.handlePkt (udp.go), ClassifyUdpFlow / UdpFlowDecision (udp_flow.go), UdpTaskPool (ordered per-flow dispatch), PacketSnifferPool + failed-DCID cache (packet_sniffer_pool.go), component/sniffing packet sniffer (QUIC Initial unprotect, CRYPTO reassembly, SNI extraction), chooseProxyDialer / ChooseDialTarget / Route (dial.go, control_plane.go, utils.go), real userspace RoutingMatcher built from rule text, DialerGroup + dialer.Dialer (selection, alive state, alive-transition callback of connectivity.go), UdpEndpointPool / UdpEndpoint (GetOrCreate, WriteTo, reply loop, reply sender, janitor, InvalidateDialerNetworkType), forwardUdpEndpointReplyToClient, udpConnStateTracker, controlPlaneDrainTracker"},
 		Stubs: []string{"the listener socket (*net.UDPConn argument of handlePkt): nil; it is only used by the DNS fast path (well-formed DNS query to port 53), which this engine never sends", "the listener's per-datagram sequence (processPacket closure in control_plane.go: classify, EnsureSnifferSession, task, dispatch by DispatchStrategy) is repeated by the harness, without its per-endpoint cache of the routing record", "kernel hand-over record (RetrieveRoutingResult): scripted per flow - proxy group chosen from the address, or control-plane routing", "node dialers and their packet conns: simulated (verifsim.SimDialer / SimPacketConn)", "client-side reply socket: sendPktWithResponseConnSlot ends at a harness hook (overlay seam udpflow_hooks.go.txt) instead of an Anyfrom socket (transparent bind in dae's netns); normalizeSendPktAddrFamily, the Anyfrom pool and the raw-socket fallback are not run", "bpf batch delete on conn_state_map: accepted by a hook in the stub build's BpfMapBatchDelete", "DNS controller absent; dial_mode domain (needs DNS knowledge) not drawn"},
-		Rule:  "tape draws dial_mode (ip / domain+ / domain++), 1-3 flows (v4/v6 sources, sometimes two flows of one source; ports 443, 8443, 5353, 27015, 53), hand-over record per flow, per flow a script: QUIC Initial flight (hello with/without SNI from crypto/tls, CRYPTO cut into pieces, reordered, 1-3 packets, padded, coalesced, v1/v2; complete, incomplete or bit-flipped) or none, then 1-6 opaque datagrams, gaps 0..130 s (beyond the NAT lifetimes); network duplicates and swaps datagrams; 1-2 proxy nodes (fixed or min-latency policy) + direct; fault runs add dial refused/unreachable/error/hang, upstream write errors, upstream read errors, health invalidation, node reported down, reply send errors; upstream replies at arbitrary points; non-trivial = >=2 schedulable options at some step or >=1 fault fired",
+		Rule:  "tape draws dial_mode (ip / domain+ / domain++), 1-3 flows (v4/v6 sources, sometimes two flows of one source; ports 443, 8443, 5353, 27015, 53), hand-over record per flow, per flow a script: QUIC Initial flight (hello with/without SNI from crypto/tls, CRYPTO cut into pieces, reordered, 1-6 packets, first packet retransmitted up to 3 times, padded, coalesced, v1/v2; complete, incomplete or bit-flipped) or none, then 1-6 opaque datagrams, gaps 0..130 s (beyond the NAT lifetimes); network duplicates and swaps datagrams; 1-2 proxy nodes (fixed or min-latency policy) + direct; fault runs add dial refused/unreachable/error/hang, upstream write errors, upstream read errors, health invalidation, node reported down, reply send errors; upstream replies at arbitrary points; non-trivial = >=2 schedulable options at some step or >=1 fault fired",
 	})
 }
